@@ -260,13 +260,6 @@ def run (op : String) (a : Json) : Option (Except String Json) :=
       pure <| match generate benv Γ cfg v with
         | .ok evs => ok (jList jEv evs)
         | .error e => jErr e
-  | "bind.tree" => some do
-      let Γ ← dCtx (field a "ctx")
-      let v ← dVal (field a "value")
-      let cfg : SerCfg := { ignoreDefaultAttributes := (field a "ignore_default_attributes").getBool?.toOption.getD false }
-      pure <| match (generate benv Γ cfg v).bind (eventsTree (isDatatype Γ)) with
-        | .ok t => ok (jTree t)
-        | .error e => jErr e
   | "bind.roundtrip" => some do
       let Γ ← dCtx (field a "ctx")
       let v ← dVal (field a "value")
